@@ -4,7 +4,6 @@ import (
 	"fmt"
 	"go/types"
 	"os"
-	"sort"
 
 	"golang.org/x/tools/go/ssa"
 
@@ -409,12 +408,13 @@ func (a *Analyzer) mergeState(fr *frame, b *ssa.BasicBlock, old, nw *edgeState, 
 		for id := range src.shared {
 			mem.shared[id] = true
 		}
+		for id := range src.multi {
+			mem.multi[id] = true
+		}
 	}
 	out.mem = mem
 	return out
 }
-
-var _ = sort.Ints
 
 // traceNotCovered prints why a loop head state is not covered (debug aid).
 func (a *Analyzer) traceNotCovered(fr *frame, b *ssa.BasicBlock, n int, nw, old *edgeState) {
